@@ -37,7 +37,7 @@ from common import qlit, qlist, shard, write_case_file
 warnings.simplefilter("ignore")
 np.seterr(all="ignore")
 
-from model_diagnostics.scoring import (GammaDeviance, HomogeneousExpectileScore,  # noqa: E402
+from model_diagnostics.scoring import (ElementaryScore, GammaDeviance, HomogeneousExpectileScore,  # noqa: E402
                                        HomogeneousQuantileScore, LogLoss, PinballLoss, PoissonDeviance,
                                        SquaredError, decompose)
 
@@ -58,8 +58,18 @@ CONFIGS = {
     "HES(3,0.7)": (lambda: HomogeneousExpectileScore(degree=3, level=0.7), "KTable", "real"),
     "HQS(1/3,0.3)": (lambda: HomogeneousQuantileScore(degree=1 / 3, level=0.3), "KTable", "pos"),
     "HQS(3,0.1)": (lambda: HomogeneousQuantileScore(degree=3, level=0.1), "KHqs3 0.1", "real"),
+    # elementary scores with the threshold on typical data values: the median alias of the SCORING FUNCTION itself
+    "Elem(1,median)": (lambda: ElementaryScore(1.0, "median"), "KTable", "real"),
+    "Elem(1,quantile,0.5)": (lambda: ElementaryScore(1.0, "quantile", 0.5), "KTable", "real"),
 }
-NAMES = list(CONFIGS)
+NAMES = [n for n in CONFIGS if not n.startswith("Elem(")]     # the elementary-score configurations are used by directed probes only
+
+
+# directed probes (judged only, never sent to the Coq comparator): the threshold of the elementary score on data values
+ELEM_PROBES = [dict(config="Elem(1,median)", y=[0.0, 1.0, 2.0, 1.0, 3.0], cols=[[0.5, 1.0, 2.5, 1.5, 1.0]], w=None, two_d=False),
+               dict(config="Elem(1,median)", y=[1.0, 1.0, 0.0, 2.0], cols=[[1.0, 0.0, 1.0, 3.0]], w=None, two_d=False),
+               dict(config="Elem(1,median)", y=[2.0, 1.0], cols=[[0.0, 1.0], [1.0, 1.0]], w=None, two_d=True),
+               dict(config="Elem(1,quantile,0.5)", y=[1.0, 1.0, 0.0, 2.0], cols=[[1.0, 0.0, 1.0, 3.0]], w=None, two_d=False)]
 
 
 def make_sf(name):
@@ -750,6 +760,10 @@ def judge_case(d, seed=0):
             o11 = call(d, functional="median", level=0.2)
             if o11[0] != "rows" or any(not relclose(a, b, 1e-12) for ra, rb in zip(o11[1], rows) for a, b in zip(ra, rb)):
                 bad.append(f"C07 alias: functional='median', level=0.2 gives {o11[:2]}, quantile at 0.5 gives rows (level must be neglected for the median)")
+    if d["config"] == "Elem(1,median)" and d.get("functional") is None:
+        o12 = call(d, config="Elem(1,quantile,0.5)")
+        if o12[0] != o[0] or (o[0] == "rows" and any(not relclose(a, b, 1e-12) for ra, rb in zip(o12[1], o[1]) for a, b in zip(ra, rb))):
+            bad.append(f"C07 alias: ElementaryScore(1, 'median') gives {o[:2]}, ElementaryScore(1, 'quantile', 0.5) gives {o12[:2]}")
     return bad, o
 
 
@@ -843,6 +857,12 @@ def main():
             stats["n_hist"][b] = stats["n_hist"].get(b, 0) + 1
             if len(samples) < 3 and tag == "ok":
                 samples.append(dict(case=strip(d), impl=list(r["obs"]), marginal=r["marg"], recalibrated=r["recals"][:1]))
+        for d in ELEM_PROBES:
+            d = json.loads(json.dumps(d))
+            bad, o_ = judge_case(d, seed)
+            stats["judged"] += 1
+            if bad:
+                pf.append(dict(case=strip(d), clauses=bad[:4], observed=list(o_)[:2]))
         paths = []
         for k, sh in enumerate(shard(cases, SHARD)):
             p = os.path.join(outdir, f"{prefix}_{k}.v")
@@ -894,6 +914,12 @@ def main():
         for name in ("PinballLoss(0.5)",):
             d = dict(config=name, y=[0.0, 1.0, 2.0, 1.0], cols=[[0.5, 1.0, 2.5, 1.5]], w=None, two_d=False,
                      functional="median", kind="median")
+            tried += 1
+            bad, obs = judge_case(d, seed)
+            if bad:
+                note(d, bad, obs)
+        for d in ELEM_PROBES:
+            d = json.loads(json.dumps(d))
             tried += 1
             bad, obs = judge_case(d, seed)
             if bad:
